@@ -111,6 +111,11 @@ def main():
                                      start_year=sy, until_year=uy, selfcheck_zones=4, san=a.san, targets=targets)
             except c03lib.Rejected as e:
                 info["rejected_by_zic"] = str(e)[:300]
+            except zicoracle.OracleError as e:
+                # the oracle's two independent readers (own TZif reader on the era-split source, CPython zoneinfo on the
+                # unsplit source) disagree on this mutant: it cannot be judged; discarded and counted, like a zic rejection
+                info["oracle_unsure"] = str(e)[:300]
+                v.violations[:] = []
         else:
             raise SystemExit("unknown kind")
         info["contract_evals"] = dict(tzpipe.CONTRACT_EVALS)
